@@ -77,6 +77,13 @@ def sweep_cases(ctx: core.Ctx, rnd: random.Random, gens: list, repeats: int, *, 
                 add(fname, sname, "code", by_name["B9"], {"template": tmpl, **({"dot": "fallback"} if fname.endswith("unknownext") else {})},
                     "rep:" + fname, unrec=fname.endswith("unknownext"))
         add("sample.py", "python", "code", by_name["B9"], {"template": "pycommented"}, "rep:sample.py")
+        # templates that lose information: whatever the tool does, success may only be reported with a full read-back
+        for tmpl in ("pydrop", "pydroplic"):
+            add("sample.py", "python", "code", by_name["B9"], {"template": tmpl}, "rep:sample.py", must=False)
+        for fname, sname in reps[:5]:
+            for tmpl in ("droplic", "dropcop", "dropall"):
+                for kind in ("code", "ownheader"):
+                    add(fname, sname, kind, by_name["B9"], {"template": tmpl}, "rep:" + fname, must=False)
         add("sample.py", "python", "ownheader", by_name["B1"], {"no_replace": True}, "rep:sample.py")
         # one invocation over several files with different pre-existing headers (each keeps its own, gets the request)
         trios = [[("a.py", "python", "ownheaderA"), ("b.py", "python", "ownheaderB"), ("c.py", "python", "code")],
